@@ -72,7 +72,17 @@ static void report(int opidx, const char *status, V::Variables &vs, V::Constrain
     printf(" U ");
     for (size_t j = 0; j < cs.size(); ++j) putchar(cs[j]->unsatisfiable ? '1' : '0');
     if (cs.empty()) putchar('-');
-    printf(" F %d\n", finite ? 1 : 0);
+    // the invariant the model proofs call act_inv, evaluated on the real solver's state:
+    // active => both ends in one block and offsets differ by exactly the gap (up to rounding)
+    bool wf = true;
+    for (size_t j = 0; j < cs.size(); ++j) {
+        if (!cs[j]->active) continue;
+        V::Variable *l = cs[j]->left, *r = cs[j]->right;
+        double d = r->offset - l->offset - cs[j]->gap;
+        double m = std::fabs(r->offset) + std::fabs(l->offset) + std::fabs(cs[j]->gap) + 1.0;
+        if (l->block != r->block || std::fabs(d) > 1e-9 * m) wf = false;
+    }
+    printf(" F %d W %d\n", finite ? 1 : 0, wf ? 1 : 0);
 }
 
 static void run_inc(std::vector<Op> &ops, V::Variables &vs, V::Constraints &cs)
